@@ -1,11 +1,11 @@
-(* R ptkloop hex (Protracker M.K., Model/ModLoad.v) | Q hex (Composer 669, Model/C669Load.v) | T hex (MultiTracker, Model/MtmLoad.v) -> "FAIL" | "RAW post=<loader_postb> | chn len pat trk ins smp spd bpm rst | xxo ... | nsm,sub ... | len,lps,lpe,flg,data ... | gate=<REJECT|ok>"
+(* R ptkloop hex (Protracker M.K., Model/ModLoad.v) | Q hex (Composer 669, Model/C669Load.v) | T hex (MultiTracker, Model/MtmLoad.v) | S hex (Scream Tracker 3, Model/S3MLoad.v) -> "FAIL" | "RAW post=<loader_postb> | chn len pat trk ins smp spd bpm rst | xxo ... | nsm,sub ... | len,lps,lpe,flg,data ... | gate=<REJECT|ok>"
    (the structural part of what mod_load leaves behind for the file, as Model/ModLoad.v computes it) *)
 open Modload_model
 open Zio
 let () = iter_lines (fun l ->
   (match words l with
-   | ["R"; _; _] | ["Q"; _] | ["T"; _] ->
-      (match (match words l with ["R"; pk; h] -> mod_raw (pk <> "0") (zlist_of_hex h) | ["Q"; h] -> c669_raw (zlist_of_hex h) | ["T"; h] -> mtm_raw (zlist_of_hex h) | _ -> None) with
+   | ["R"; _; _] | ["Q"; _] | ["T"; _] | ["S"; _] ->
+      (match (match words l with ["R"; pk; h] -> mod_raw (pk <> "0") (zlist_of_hex h) | ["Q"; h] -> c669_raw (zlist_of_hex h) | ["T"; h] -> mtm_raw (zlist_of_hex h) | ["S"; h] -> s3m_raw (zlist_of_hex h) | _ -> None) with
        | None -> print_string "FAIL"
        | Some r ->
           let m = r.r_m in
